@@ -27,7 +27,7 @@ import cobra  # noqa: E402
 from cobra.io import (from_json, from_yaml, load_json_model, load_yaml_model, model_from_dict, model_to_dict,  # noqa: E402
                       save_json_model, save_yaml_model, to_json, to_yaml)
 
-FORMATS = ["dict_reuse", "json_str", "json_file", "json_handle", "yaml_str", "yaml_file", "dict", "pickle", "pickle_file", "pickle", "json_sorted", "dict_sorted"]
+FORMATS = ["dict_reuse", "load_edit_load_json", "load_edit_load_yaml", "load_edit_load_dict", "json_str", "json_file", "json_handle", "yaml_str", "yaml_file", "dict", "pickle", "pickle_file", "pickle", "json_sorted", "dict_sorted"]
 
 
 def roundtrip(m, fmt, tmpdir):
@@ -61,6 +61,30 @@ def roundtrip(m, fmt, tmpdir):
         if d != keep:
             raise AssertionError("model_from_dict changed the dict it was given: " + richgen.diff(json.loads(json.dumps(keep, default=str)), json.loads(json.dumps(d, default=str))))
         return model_from_dict(d)
+    if fmt.startswith("load_edit_load"):
+        # one document loaded, the loaded model edited in place (notes, annotations, compartments at every level), the same document loaded again:
+        # loaded models are values of their own, nothing done to one of them shows in the next load
+        kind = fmt.rsplit("_", 1)[1]
+        doc = to_json(m) if kind == "json" else (to_yaml(m) if kind == "yaml" else model_to_dict(m))
+        # (a dict document is a live object whose lists the loaded model may alias — that is not part of the property; each load gets its own deep copy,
+        # so that "the same document" is well defined)
+        load = from_json if kind == "json" else (from_yaml if kind == "yaml" else (lambda d: model_from_dict(copy.deepcopy(d))))
+        first = load(doc)
+        for obj in [first] + list(first.reactions)[:2] + list(first.metabolites)[:2] + list(first.genes)[:2] + list(first.groups)[:1]:
+            obj.notes["edited_after_load"] = "x"
+            obj.annotation["edited_after_load"] = ["y"]
+            for v in list(obj.annotation.values()):
+                if isinstance(v, list):
+                    v.append("appended_after_load")
+            for v in list(obj.notes.values()):
+                if isinstance(v, list):
+                    v.append("appended_after_load")
+        try:
+            first.compartments = dict(first.compartments, zz_after_load="edited")
+            first._compartments["zz2_after_load"] = "edited"
+        except Exception:
+            pass
+        return load(doc)
     if fmt == "dict_sorted":
         return model_from_dict(model_to_dict(m, sort=True))
     if fmt == "pickle":
@@ -91,14 +115,14 @@ def check_case(case):
                 conf.bounds = tuple(case["config_bounds"])
             m = richgen.build(spec)
             groups = fmt.startswith("pickle")
-            d0 = richgen.rich_dump(m, with_groups=groups)
+            d0 = richgen.rich_dump(m, with_groups=groups, model_meta=True)
             g0 = canon.glpk_dump(m)
             with tempfile.TemporaryDirectory(dir="/root") as td:
                 try:
                     m1 = roundtrip(m, fmt, td)
                 except Exception as e:
                     return [f"{fmt}: loading a model that could be saved failed with {type(e).__name__}: {e}"], "ran"
-                d1 = richgen.rich_dump(m1, with_groups=groups)
+                d1 = richgen.rich_dump(m1, with_groups=groups, model_meta=True)
                 if d1 != d0:
                     fails.append(f"{fmt}: {richgen.diff(d0, d1)}")
                 g1 = canon.glpk_dump(m1)
@@ -109,11 +133,11 @@ def check_case(case):
                 o0, o1 = canon.optlang_dump(m, strict=True), canon.optlang_dump(m1, strict=True)
                 if o1 != o0:
                     fails.append(f"{fmt}: flux-balance problem as reported by the solver interface changed: {richgen.diff(o0, o1)}")
-                if richgen.rich_dump(m, with_groups=groups) != d0:
+                if richgen.rich_dump(m, with_groups=groups, model_meta=True) != d0:
                     fails.append(f"{fmt}: saving changed the original model")
                 try:
                     m2 = roundtrip(m1, fmt, td)
-                    d2 = richgen.rich_dump(m2, with_groups=groups)
+                    d2 = richgen.rich_dump(m2, with_groups=groups, model_meta=True)
                     if d2 != d1:
                         fails.append(f"{fmt}: second round trip changed the model: {richgen.diff(d1, d2)}")
                 except Exception as e:
